@@ -2,6 +2,7 @@ package c03
 
 import (
 	"fmt"
+	"math/rand"
 	"os"
 	"path/filepath"
 	"strings"
@@ -561,6 +562,98 @@ func refusedPolicyPutLane(c *ev.Ctx, sidecar bool) {
 			}
 			if gp2 := root.Sub("GET", b, "", "policy=", nil); !gp2.OK() {
 				root.Sub("PUT", b, "", "policy=", []byte(p1))
+			}
+		}
+	}
+}
+
+// Inner-wildcard lane: "allows that account the corresponding S3 action on that exact resource and no statement denies
+// it" - with resources whose wildcard is followed by literal text (b/*/private/*, b/*.txt, b/*-secret-*), and keys
+// in which that literal has false starts before its real occurrence (alice/priv/private/x: "/priv" looks like the
+// beginning of "/private/"; the character that ends the false start is the one that begins the real match). A Deny of
+// that shape sits next to a wide Allow; every key is read by the non-admin account and the answer compared with the
+// reference matcher.
+func innerWildcardLane(c *ev.Ctx, seed int64) {
+	id := "w/inner-wildcard"
+	if !c.Want(id) {
+		return
+	}
+	env, err := fx.New("c03w", gw.Config{}, 1)
+	if err != nil {
+		c.Inconclusive("gateway start (inner-wildcard lane): " + err.Error())
+		return
+	}
+	defer env.Close()
+	root := env.Client(0)
+	if r := env.CreateUser("alice", "alice-secret-1", "user", 0, 0); r.Status != 201 {
+		c.Inconclusive("create user: " + r.String())
+		return
+	}
+	alice := root.With("alice", "alice-secret-1")
+	const b = "inner"
+	if r := root.CreateBucket(b); !r.OK() {
+		c.Inconclusive("create bucket: " + r.String())
+		return
+	}
+	r := rand.New(rand.NewSource(seed))
+	type world struct {
+		pattern string
+		keys    []string
+	}
+	worlds := []world{
+		{"*/private/*", []string{"alice/priv/private/salary", "bob/p/private/key.pem", "x/private/y", "a/privateX/z", "private/top", "q/privat/e"}},
+		{"*.txt", []string{"a.t.txt", "a.txt", "a.tx", "notes.tx.txt", "t.txt.bak"}},
+		{"*-secret-*", []string{"a-sec-secret-b", "a-secret-b", "a-secre-t-b", "--secret--", "a-s-se-sec-secret-x"}},
+		{"*aab*", []string{"aaab", "aab", "abab", "xaaaab", "aaba"}},
+		{"logs/*/2024/*", []string{"logs/a/20/2024/x", "logs/a/2024/x", "logs/2024/x", "logs/a/2024x/y"}},
+	}
+	// generated: a literal, and keys with a false start of every length
+	for i := 0; i < 4; i++ {
+		lit := []string{"/keep/", "-ab-", ".bak", "/aa/a"}[i]
+		var keys []string
+		for j := 1; j < len(lit); j++ {
+			keys = append(keys, fmt.Sprintf("k%d", r.Intn(90))+lit[:j]+lit+"tail")
+		}
+		keys = append(keys, "plain"+lit+"tail", "none"+lit[:len(lit)-1]+"x")
+		worlds = append(worlds, world{"*" + lit + "*", keys})
+	}
+	for wi, w := range worlds {
+		pol := fmt.Sprintf(`{"Version":"2012-10-17","Statement":[{"Effect":"Allow","Principal":{"AWS":["alice"]},"Action":"s3:*","Resource":["arn:aws:s3:::%s","arn:aws:s3:::%s/*"]},{"Effect":"Deny","Principal":{"AWS":["alice"]},"Action":["s3:GetObject","s3:DeleteObject"],"Resource":"arn:aws:s3:::%s/%s"}]}`, b, b, b, w.pattern)
+		if pr := root.Sub("PUT", b, "", "policy=", []byte(pol)); !pr.OK() {
+			c.Observe("inner-wildcard lane: policy refused: " + pr.String())
+			continue
+		}
+		for _, k := range w.keys {
+			if p := root.PutObject(b, k, []byte("data of "+k)); !p.OK() {
+				c.Observe("inner-wildcard lane: key not storable: " + k)
+				continue
+			}
+			denied := glob(b+"/"+w.pattern, b+"/"+k)
+			for _, op := range []string{"GetObject", "DeleteObject"} {
+				var resp *s3c.Resp
+				if op == "GetObject" {
+					resp = alice.GetObject(b, k)
+				} else {
+					resp = alice.DeleteObject(b, k)
+				}
+				c.Eval(1)
+				if resp.Err != nil {
+					c.Inconclusive("transport error in inner-wildcard lane")
+					return
+				}
+				got := resp.Status == 403
+				det := map[string]any{"deny_resource": b + "/" + w.pattern, "key": k, "operation": op, "answer": resp.String(), "reference_denies": denied}
+				switch {
+				case denied && !got:
+					c.Violation(fmt.Sprintf("inner-wildcard:%s:served-although-a-deny-statement-matches:world%d", op, wi), id, det)
+				case !denied && got:
+					c.Violation(fmt.Sprintf("inner-wildcard:%s:refused-although-no-deny-statement-matches:world%d", op, wi), id, det)
+				default:
+					c.Distinct(fmt.Sprintf("inner|%s|%s|denied=%v", w.pattern, op, denied))
+				}
+				if op == "DeleteObject" && !got {
+					root.PutObject(b, k, []byte("data of "+k))
+				}
 			}
 		}
 	}
